@@ -2,7 +2,7 @@
 import struct
 
 import framework as F
-from props.c03 import set_value, calcfg
+from props.c03 import set_value, calcfg, chan_config, rs_cfg, fb_cfg
 
 AUTOCAL = 0x1000
 RECAL = 0x4000
@@ -38,6 +38,10 @@ class C10(F.Spec):
             yield self.positioning(rng, 20000 + i, zero=True)
         for i in range(n // 3):
             yield self.pass_through(rng, i)
+        for i in range(n // 6):
+            yield self.quick_retarget(rng, i)
+        for i in range(n // 6):
+            yield self.config_margin(rng, i)
         for i in range(n // 3):
             yield self.uncalibrated(rng, i)
         for i in range(n // 3):
@@ -150,6 +154,63 @@ class C10(F.Spec):
         return F.Case("pass%d" % i, ops, {"kind": "pos", "tt": 0, "opening": full, "closing": full, "tms": 0, "margin": -1, "p0": p0, "t0": 0,
                                           "cmds": [("move", None), (g2, -1)], "startup": 0, "noshrink": True,
                                           "tags": ["kind:pos", "tilt:0", "target:passing"]})
+
+    def config_margin(self, rng, i):
+        """the end-stop margin arrives the way the server sends it - in channel configurations (two in a row with different values,
+        for roller shutters and for facade blinds) - and the task that follows is held to the margin configured last"""
+        blind = i % 2 == 0
+        tt = rng.choice([1, 2, 3]) if blind else 0
+        full = 100 * rng.randint(200, 400)      # (slow enough for a wrong margin to stand out against the tilting)
+        tms = 100 * rng.randint(10, 20) if blind else 0
+        pairs = [(100, 0), (0, 100), (100, 5), (50, 0), (100, -1), (30, 1), (-1, 100)]
+        m1, m2 = pairs[i % len(pairs)]
+        p0 = rng.choice([30, 50, 70])
+        t0 = 0 if not blind else rng.choice([0, 100]) if tt != 3 else 0
+        # (towards the upper end stop the margin is run in full; towards the lower one the motor model's sensor ends the task)
+        g = 0 if i % 4 != 3 else 100
+        gt = -1 if not blind else (100 if g == 100 else 0)
+        dur = ((full // 100) << 16) | (full // 100)
+        wire = lambda m: -1 if m < 0 else m + 1
+        def cfg(m):
+            if blind:
+                return chan_config(0, 900, 0, fb_cfg(full, full, tms, 0, 0, wire(m), 0, 180, tt, 0))
+            return chan_config(0, 110, 0, rs_cfg(full, full, 0, 0, wire(m), 0))
+        ops = ["boot 12345", "board rs1 0", "motor 3 0 %d %d" % (full, full), "init", "calllog 1",
+               "rstimes 0 %d %d %d %d" % (full, full, tms, tt), "rspos 0 %d %d" % (100 + 100 * p0, (100 + 100 * t0) if tt else 0),
+               "physpos 0 %d" % p0, "adv 500",
+               "msg 690 " + cfg(m1).hex(), "adv 200", "msg 690 " + cfg(m2).hex(), "adv 1300",
+               "msg 110 " + set_value(7, 0, dur, [10 + g, (10 + gt) if gt >= 0 else 0]).hex()]
+        self.run_until_idle(ops, int(full * 2.3) + 4000)
+        ops += ["physshow 0"]
+        return F.Case("cfgmargin%d" % i, ops, {"kind": "pos", "tt": tt, "opening": full, "closing": full, "tms": tms, "margin": m2, "p0": p0, "t0": t0,
+                                               "cmds": [(g, gt)], "startup": 0, "noshrink": True,
+                                               "tags": ["kind:pos", "tilt:%d" % tt, "target:end", "margin:by-config"]})
+
+    def quick_retarget(self, rng, i):
+        """requests in quick succession around the 1 s start delay: the shutter is stopped, a target on one side is requested inside
+        the delay (its start is deferred), and before that start is due a target on the other side is requested - late enough to
+        be carried out at once, or early enough to be deferred in its turn. The last request is the one that counts."""
+        full = rng.choice([10000, 20000])
+        p0 = rng.choice([40, 50, 60])
+        dur = ((full // 100) << 16) | (full // 100)
+        first_down = rng.random() < .5
+        a, b = (rng.randint(80, 100), rng.randint(0, 25)) if first_down else (rng.randint(0, 20), rng.randint(75, 100))
+        d1 = rng.choice([100, 300, 500, 700])
+        d2 = rng.choice([905, 930, 960, 990, 800, 850]) if rng.random() < .8 else rng.choice([1100, 1500])
+        ops = ["boot %d" % rng.choice([12345, rng.getrandbits(32) | 1]), "board rs1 0", "motor 3 0 %d %d" % (full, full), "init", "calllog 1",
+               "rstimes 0 %d %d 0 0" % (full, full), "rspos 0 %d 0" % (100 + 100 * p0), "rsmargin 0 -1", "physpos 0 %d" % p0, "adv 1500",
+               "msg 110 " + set_value(7, 0, dur, [1 if first_down else 2]).hex()]
+        self.run_until_idle(ops, rng.choice([1200, 2000]))
+        ops.append("msg 110 " + set_value(8, 0, dur, [0]).hex())
+        ops.append("adv %d" % d1)
+        ops.append("msg 110 " + set_value(9, 0, dur, [10 + a, 0]).hex())
+        ops.append("adv %d" % max(1, d2 - d1 - 25))       # (each command costs the two 10 ms relay writes)
+        ops.append("msg 110 " + set_value(10, 0, dur, [10 + b, 0]).hex())
+        self.run_until_idle(ops, int(full * 1.6) + 4000)
+        ops += ["physshow 0"]
+        return F.Case("quick%d" % i, ops, {"kind": "pos", "tt": 0, "opening": full, "closing": full, "tms": 0, "margin": -1, "p0": p0, "t0": 0,
+                                           "cmds": [("move", None), ("stop", None), (a, -1), (b, -1)], "startup": 0, "noshrink": True,
+                                           "tags": ["kind:pos", "tilt:0", "target:quick-succession"]})
 
     def tilt_retarget(self, rng, i):
         """facade blind: a positioning task settles, then tilt-only requests (position 'keep'), the second one while the tilt
@@ -410,6 +471,12 @@ class C10(F.Spec):
                         me["cmds"].append(("stop", None))
                     else:
                         me["cmds"].append(("move", None))
+                if t[1] == "690" and len(pl) >= 20:
+                    func = int.from_bytes(pl[1:5], "little")
+                    tm = int.from_bytes(pl[8 + (14 if func in (900, 950) else 10):8 + (14 if func in (900, 950) else 10) + 1], "little", signed=True)
+                    if tm == -1 or 1 <= tm <= 101:
+                        me["margin"] = tm if tm < 0 else tm - 1
+                    nmsg -= 1
                 if nmsg > 1:
                     me["inter"] = "cmd"
         if any(o.startswith("acprobe ") for o in case.ops):
@@ -610,6 +677,21 @@ class C10(F.Spec):
                             bound = Fmax * (1.0 + max(m, 0.5)) + 3 * me["tms"] * 1000.0 + 2500000
                             if t_off > t_cmd and t_off - t_cmd > bound:
                                 fs.append(F.Finding("task-too-slow", "task took %.1f s, bound %.1f s" % ((t_off - t_cmd) / 1e6, bound / 1e6)))
+                            if me["tt"] and len(me["cmds"]) == 1 and g in (0, 100) and "margin:by-config" in me.get("tags", []) and \
+                                    me.get("sensor", 3) == 3:
+                                # a blind sent to an end stop by one command, the margin configured by the server, a motor that stops at
+                                # the end stop: travel + the tilting (twice over: before and after the travel) + the configured margin
+                                start = 100 + 100 * me["p0"]
+                                goal = 100 + 100 * g
+                                Fdir = (me["opening"] if goal < start else me["closing"]) * 1000.0
+                                travel = abs(goal - start) / 10000.0 * Fdir
+                                meff = 5 if me["margin"] < 0 else me["margin"]
+                                bound2 = travel + Fdir * meff / 100.0 + 2 * me["tms"] * 1000.0 + 1300000 + 0.02 * Fdir
+                                if t_off > t_cmd and t_off - t_cmd > bound2:
+                                    fs.append(F.Finding("task-too-slow", "blind (mode %d) %d -> %d %% with the margin %d %% configured by the server: "
+                                                        "task took %.2f s, travel %.2f s + margin %.2f s + tilting (bound %.2f s)"
+                                                        % (me["tt"], me["p0"], g, me["margin"], (t_off - t_cmd) / 1e6, travel / 1e6,
+                                                           Fdir * meff / 100.0 / 1e6, bound2 / 1e6)))
             else:
                 if last[0] == "stop" and still_on:
                     fs.append(F.Finding("stop-ignored", "outputs still on after a stop command"))
